@@ -32,6 +32,16 @@ TYPE_NAMES = ['Foo', 'Bar', 'Baz', 'Item', 'Point', 'Node', 'Shape', 'Event', 'A
 FIELD_NAMES = ['id', 'name', 'value', 'items', 'count', 'data', 'flag', 'x', 'created_at', 'user-id']
 VARIANT_NAMES = ['A', 'B', 'Red', 'Ready', 'Failed', 'Leaf', 'Branch']
 GENERIC_NAMES = ['T', 'U', 'K']
+# per-language type overrides on a field (texts outside every helper vocabulary): an override for ANOTHER language must not
+# change which helpers this language's file needs (seeded C12_d: Scala's unsigned scan skipped fields overridden for Kotlin)
+OVERRIDES = {'typescript': 'bigint', 'kotlin': 'Long', 'swift': 'Int64', 'go': 'int64', 'python': 'int', 'scala': 'Long'}
+
+
+def override_attr(rng, indent):
+    if rng.random() >= 0.15:
+        return ''
+    l = rng.choice(sorted(OVERRIDES))
+    return f'{indent}#[typeshare({l}(type = "{OVERRIDES[l]}"))]\n'
 
 
 # ------------------------------------------------------------------------------------------------ generator
@@ -106,6 +116,7 @@ def program(rng, lang):
                 ident = fname.replace('-', '_')
                 if '-' in fname:
                     fa += f'    #[serde(rename = "{fname}")]\n'
+                fa += override_attr(rng, '    ')
                 fields.append(f'{fa}    pub {ident}: {t},\n')
                 positions.append(('field', d, w))
                 used.add(t)
@@ -128,6 +139,7 @@ def program(rng, lang):
                     for fname in rng.sample(FIELD_NAMES[:9], rng.randint(1, 2)):
                         t, d, w = g.ty(generics, wants, 5)
                         fa = '        #[serde(default)]\n' if rng.random() < 0.2 else ''
+                        fa += override_attr(rng, '        ')
                         fs.append(f'{fa}        {fname}: {t},\n')
                         positions.append(('variant_field', d, w))
                     vs.append(f'    {vname} {{\n{"".join(fs)}    }},\n')
